@@ -117,6 +117,11 @@ def check_key_builder(rep: Report, rule: str) -> None:
         app_ok = len(appends) == 1 and unparse(appends[0].args[0]) == lotvar
         order_ok = inc_ok and (incs[0].lineno > inserts[0].lineno)
         idx_ok = init_ok and inc_ok and app_ok and order_ok
+        # the same thing spelled with enumerate: `for index, lot in enumerate(<lots>)` (start 0), index never reassigned, one append of the lot per iteration
+        if isinstance(lp, ast.For) and isinstance(lp.iter, ast.Call) and isinstance(lp.iter.func, ast.Name) and lp.iter.func.id == "enumerate" and isinstance(lp.target, ast.Tuple) and len(lp.target.elts) == 2:
+            start = lp.iter.args[1] if len(lp.iter.args) > 1 else next((k.value for k in lp.iter.keywords if k.arg == "start"), None)
+            enum_ok = unparse(lp.target.elts[0]) == idx_name and unparse(lp.target.elts[1]) == lotvar and (start is None or unparse(start) == "0") and not incs
+            idx_ok = enum_ok and app_ok and not any(isinstance(n, (ast.Continue, ast.Break)) for n in ast.walk(lp))
         detail = f"'{idx_name}' starts at {unparse(inits[0].value) if inits else None}, is updated by {[unparse(i) for i in incs]}, list appends: {[unparse(a) for a in appends]}"
     rep.check(idx_ok, rule, init.module, init.qualname, "the index stored with a lot is its position in the lot list (0-based, +1 per lot, after the insert)", f"{detail}: the AVL lookup returns this index as the upper bound of a disposal's candidates, so it must equal the lot's position in the list the candidates read", loc(init.node))
     # lookup: find_max_value_less_than(key_with_max(taxable_event.timestamp))
@@ -224,7 +229,16 @@ def check_candidate_window(rep: Report, rule: str) -> None:
 
 
 def _loop_guarded_by_check_index(f: ast.AST) -> bool:
-    return any(isinstance(n, ast.While) and unparse(n.test) == "self._check_index()" for n in ast.walk(f))
+    """The read of the shared list happens only after self._check_index() held: inside `while/if self._check_index():`, or after the guard clause
+    `if not self._check_index(): raise ...` at the top level of the function."""
+    if any(isinstance(n, (ast.While, ast.If)) and unparse(n.test) == "self._check_index()" and any(isinstance(s, ast.Subscript) for b in n.body for s in ast.walk(b)) for n in ast.walk(f)):
+        return True
+    body = getattr(f, "body", [])
+    for i, st in enumerate(body):
+        if isinstance(st, ast.If) and unparse(st.test) == "not self._check_index()" and st.body and isinstance(st.body[-1], ast.Raise) and not st.orelse:
+            before = [s for b in body[:i] for s in ast.walk(b) if isinstance(s, ast.Subscript)]
+            return not before
+    return False
 
 
 # ---------------------------------------------------------------------------
@@ -255,6 +269,12 @@ def check_chronological_input(rep: Report, rule: str) -> None:
         if res and res[0] == "func":
             keyf = res[1]
     key_ok = keyf is not None and [unparse(s) for s in keyf.body] == [f"return {keyf.param_names[0]}.timestamp"]
+    if ok and not key_ok:
+        kv = sorts[0].keywords[0].value  # the same key spelled as a lambda or operator.attrgetter("timestamp")
+        if isinstance(kv, ast.Lambda) and len(kv.args.args) == 1 and unparse(kv.body) == f"{kv.args.args[0].arg}.timestamp":
+            key_ok = True
+        if isinstance(kv, ast.Call) and unparse(kv.func) in ("attrgetter", "operator.attrgetter") and len(kv.args) == 1 and not kv.keywords and isinstance(kv.args[0], ast.Constant) and kv.args[0].value == "timestamp":
+            key_ok = True
     rep.check(ok and key_ok, rule, so.module, so.qualname, "entries are sorted by their timestamp (stable list.sort, ascending)", "AbstractEntrySet._sort_entries does not sort the entry list by key=<entry timestamp> in ascending order", loc(so.node))
     # who-may-reorder: the only statements anywhere in the package that reorder or replace an entry list are that sort (overrides in
     # subclasses and helper functions included): a second ordering, e.g. a tie-break applied before the stable timestamp sort, makes the
@@ -698,6 +718,8 @@ def check_schedule_traversal(rep: Report, rule: str) -> None:
     where = loc(lp)
     inserts = [n for n in ast.walk(lp) if isinstance(n, ast.Call) and isinstance(n.func, ast.Attribute) and n.func.attr == "insert_node" and "lot_candidates" in unparse(n.func.value)]
     node_var = unparse(lp.test).split(" ")[0] if isinstance(lp.test, ast.Compare) else unparse(lp.test)
+    if len(inserts) == 1 and inserts[0].args and isinstance(inserts[0].args[0], ast.Attribute) and inserts[0].args[0].attr == "key" and isinstance(inserts[0].args[0].value, ast.Name):
+        node_var = inserts[0].args[0].value.id  # the visited node is whatever the insert reads its key from (`while stack: node = stack.pop()` as well as `while node is not None`)
     ok_ins = len(inserts) == 1 and len(inserts[0].args) == 2 and unparse(inserts[0].args[0]) == f"{node_var}.key" and unparse(inserts[0].args[1]).startswith(f"{node_var}.value.create_lot_candidates(") and inserts[0] in [c for st in lp.body for c in ast.walk(st) if st in lp.body and not isinstance(st, ast.If)]
     rep.check(ok_ins, rule, init.module, init.qualname, "every visited schedule node gets candidates under its own year, unconditionally", f"the traversal inserts {[short(i, 100) for i in inserts]}; expected exactly one unconditional insert_node({node_var}.key, {node_var}.value.create_lot_candidates(...)) per visited node", where)
     pushes = {}
@@ -854,6 +876,7 @@ def check_private_shadowing(rep: Report, rule: str, classes=None) -> int:
                         f"{b.name} keeps and reads its own _{b.name.lstrip('_')}{name} ({short(_stmt_of(bu['load'][0]), 80)}): the reset never reaches the table that is used, which therefore "
                         "keeps the entries of earlier assets / runs",
                         loc(st),
+                        definite=True,
                     )
     return n
 
@@ -865,3 +888,38 @@ def _stmt_of(node: ast.AST) -> ast.AST:
     while cur is not None and not isinstance(cur, ast.stmt):
         cur = parent(cur)
     return cur if cur is not None else node
+
+
+# --------------------------------------------------------------------------- shared: -m together with [accounting_methods] exits non-zero
+def method_conflict_exit(m: Model):
+    """(function, sys.exit call) of the run's rejection of '-m given AND the configuration has an [accounting_methods] section', located by its path condition:
+    a sys.exit(<non-zero constant>) in rp2.rp2_main guarded by exactly truthy(<args>.method) and truthy(<configuration's years_2_accounting_method_names>),
+    the latter read directly or through a local bound once to it. Where the test sits (one `if a and b`, nested ifs, an extracted function) does not matter."""
+    prog, norm = m.prog, m.norm
+    prop = ("Configuration.__years_2_accounting_method_names",)
+    found = []
+    for f in prog.iter_functions():
+        if f.module != "rp2.rp2_main":
+            continue
+        ctx = norm.ctx_for(f, subst_locals=False)
+        for n in ast.walk(f.node):
+            if not (isinstance(n, ast.Call) and unparse(n.func) == "sys.exit" and len(n.args) == 1 and isinstance(n.args[0], ast.Constant) and n.args[0].value not in (0, None, False)):
+                continue
+            g = m.guard_term(n, ctx, None, False)
+            atoms = list(g[1]) if g[0] == "and" else [g]
+            if len(atoms) != 2 or any(a[0] != "truthy" for a in atoms):
+                continue
+            vals = [a[1] for a in atoms]
+            is_m = [v[0] == "attr" and v[2] == "method" for v in vals]
+            if sum(is_m) != 1:
+                continue
+            other = vals[1 - is_m.index(True)]
+            if other[0] == "sym":  # a local: its single definition before the exit must be the configuration's table
+                defs = [d for d in ast.walk(f.node) if isinstance(d, (ast.Assign, ast.AnnAssign)) and getattr(d, "value", None) is not None and d.lineno < n.lineno
+                        and any(isinstance(t, ast.Name) and t.id == other[1] for t in (d.targets if isinstance(d, ast.Assign) else [d.target]))]
+                if len(defs) != 1:
+                    continue
+                other = norm.term(defs[0].value, ctx)
+            if other[0] == "fld" and other[2] in prop:
+                found.append((f, n))
+    return found
